@@ -303,7 +303,7 @@ def Decoder.fromCompressed (c : Cfg) (ws : List Nat) : M Decoder :=
 /-- `RangeDecoder::from_raw_parts(cursor, state, point)`; `none` = `Err(bulk)` -/
 def Decoder.fromRawParts (c : Cfg) (data : List Nat) (pos lower range point : Nat) :
     Option Decoder :=
-  if wsub c.S point lower > range then none
+  if wsub c.S point lower ≥ range then none
   else some { data := data, pos := pos, lower := lower, range := range, point := point }
 
 /-- the part of `decode_symbol` after `model.quantile_function` returned `(s, cum, p)` -/
